@@ -5,12 +5,14 @@ A case is one cell of the operation table:
   {"k": "mk",     "cfg": c, "a": opnd}
   {"k": "common", "x": dtval, "y": dtval, "sys": 0|1, "near": 0|1}
   {"k": "bin",    "op": add|sub|mul|div|fb|append, "via": .., "cfg": c, "a": opnd, "b": opnd}
-  {"k": "un",     "op": .., "arg": k|Ts|None, "via": .., "cfg": c, "a": opnd}
+  {"k": "un",     "op": .., "arg": k|Ts|None, "via": .., "cfg": c, "a": opnd[, "m2": 1]  (m2: 2x2 operand)}
   {"k": "nary",   "fn": series|parallel|append|combine|interconnect, "kw": c|"-", "cfg": c, "xs": [opnd..]}
   {"k": "tree",   "cfg": c, "prog": [tokens]}
 opnd = "scalar" | "array" | "<cls>:<static>:<kw>";  kw/cfg = "-" | "N" | "T" | "Q<rat>" | "O"
 """
 import copy
+import traceback
+import warnings
 from fractions import Fraction
 
 import numpy as np
@@ -136,6 +138,41 @@ def build_via(opnd, via):
                 return ct.NonlinearIOSystem(None, lambda t, x, u, params: u, inputs=1, outputs=1, **k)
             return ct.NonlinearIOSystem(lambda t, x, u, params: -x, lambda t, x, u, params: x,
                                         inputs=1, outputs=1, states=1, **k)
+    if via == "classpos":
+        # the class constructors with the timebase as the optional last *positional* argument (the
+        # route of FrequencyResponseData.__getitem__ and of all StateSpace / TransferFunction operators)
+        if cls == "ss":
+            return (ct.StateSpace([], [], [], [[2.0]], *pos) if static
+                    else ct.StateSpace([[0.5]], [[1.0]], [[1.0]], [[0.0]], *pos))
+        if cls == "tf":
+            return ct.TransferFunction([2.0], [1.0], *pos) if static else ct.TransferFunction([1.0], [1.0, 2.0], *pos)
+        if cls == "frd":
+            return ct.FrequencyResponseData([1.0, 2.0], [1.0, 2.0], *pos)
+    if via == "poskw" and kw != "-":
+        # timebase given twice, positionally and as keyword (same value)
+        with warnings.catch_warnings():
+            warnings.simplefilter("ignore")          # FRD: "received multiple dt arguments"
+            if cls == "ss":
+                return (ct.ss([], [], [], [[2.0]], *pos, **k) if static
+                        else ct.ss([[0.5]], [[1.0]], [[1.0]], [[0.0]], *pos, **k))
+            if cls == "tf":
+                return ct.tf([2.0], [1.0], *pos, **k) if static else ct.tf([1.0], [1.0, 2.0], *pos, **k)
+            if cls == "frd":
+                return ct.FrequencyResponseData([1.0, 2.0], [1.0, 2.0], *pos, **k)
+    if via == "mimo" and cls in ("ss", "tf", "frd"):
+        return build(opnd, mimo=True)
+    if via == "mimopos" and cls in ("ss", "tf", "frd"):
+        if cls == "ss":
+            if static:
+                return ct.StateSpace([], [], [], [[2.0, 0.0], [1.0, 2.0]], *pos)
+            return ct.ss([[0.5, 0.25], [0.0, -0.5]], np.eye(2), np.eye(2), np.eye(2), *pos)
+        if cls == "tf":
+            if static:
+                return ct.tf([[[2.0], [0.0]], [[1.0], [2.0]]], [[[1.0], [1.0]], [[1.0], [1.0]]], *pos)
+            return ct.TransferFunction([[[1.0, 2.0], [1.0]], [[0.5], [1.0, 1.0]]],
+                                       [[[1.0, 3.0], [1.0, 4.0]], [[1.0, 5.0], [1.0, 3.0]]], *pos)
+        data = np.array([[[1 + 1j, 2.0, 3 - 1j], [0.5, 0.25j, 1.0]], [[0.0, 1.0, 2.0], [2.0, 1 - 1j, 1.0]]])
+        return ct.frd(data, OMEGA, *pos)
     if via == "zpk" and cls == "tf":
         return ct.zpk([], [], 2.0, **k) if static else ct.zpk([1.0], [0.5], 2.0, **k)
     if via == "rss" and cls == "ss" and not static:
@@ -207,7 +244,7 @@ def run_un(op, arg, via, s):
     if op == "pow":
         return s ** int(arg)
     if op == "getitem":
-        return s[0, 0]
+        return s[getitem_key(via, s)]
     if op == "copy":
         return copy.deepcopy(s) if via == "deepcopy" else s.copy()
     if op == "rename":
@@ -220,20 +257,41 @@ def run_un(op, arg, via, s):
             return ct.tf2ss(s)
         if via == "named":
             return ct.ss(s, name="c05ss")
+        if via == "class":
+            return ct.StateSpace(s)                  # copy constructor
+        if via == "kwsame":
+            return ct.ss(s, dt=s.dt)                 # the operand's own timebase, explicitly
         return ct.ss(s)
     if op == "toTF":
         if via == "ss2tf":
             return ct.ss2tf(s)
         if via == "named":
             return ct.tf(s, name="c05tf")
+        if via == "class":
+            return ct.TransferFunction(s)            # copy constructor
+        if via == "kwsame":
+            return ct.tf(s, dt=s.dt)
         return ct.tf(s)
     if op == "toFRD":
+        if isinstance(s, ct.FrequencyResponseData):
+            # one-argument copy constructor (`frd(F, omega)` would read F as response data)
+            if via == "class":
+                return ct.FrequencyResponseData(s)
+            if via == "kwsame":
+                return ct.FrequencyResponseData(s, dt=s.dt)
+            return ct.frd(s)
+        if via == "classpos":
+            return ct.FrequencyResponseData(s, OMEGA, s.dt)      # timebase positionally
+        if via == "kwsame":
+            return ct.frd(s, OMEGA, dt=s.dt)
         if via == "freqresp":
             return ct.frequency_response(s, OMEGA)
         if via == "class":
             return ct.FrequencyResponseData(s, OMEGA)
         return ct.frd(s, OMEGA)
     if op == "toNL":
+        if via == "kwsame":
+            return ct.nlsys(s, dt=s.dt)
         return ct.nlsys(s, name="c05nl") if via == "named" else ct.nlsys(s)
     if op == "sim":
         return ct.similarity_transform(s, np.array([[1.0, 1.0], [0.0, 2.0]]))
@@ -266,17 +324,39 @@ def run_un(op, arg, via, s):
     raise ValueError(op)
 
 
+GETITEM_VIAS = ["op", "row", "rev", "all", "list", "names", "neg"]
+
+
+def getitem_key(via, s):
+    """two-index keys of every documented form; `last` = the last output (1 for the 2x2 operands)"""
+    last = s.noutputs - 1
+    if via == "row":
+        return (last, slice(None))                       # F[i, :]
+    if via == "rev":
+        return (slice(None, None, -1), s.ninputs - 1)    # reversed slice
+    if via == "all":
+        return (slice(None), slice(None))
+    if via == "list":
+        return (sorted({0, last}), [0])
+    if via == "names":
+        return (s.output_labels[last], s.input_labels[0])
+    if via == "neg":
+        return (-1, -1)
+    return (0, 0)
+
+
 UN_VIAS = {
     "neg": ["op", "func"], "pow": ["op"], "getitem": ["op"], "copy": ["copy", "deepcopy"],
-    "rename": ["update", "copyname"], "toSS": ["ss", "tf2ss", "named"], "toTF": ["tf", "ss2tf", "named"],
-    "toFRD": ["frd", "freqresp", "class"], "toNL": ["nlsys", "named"], "sim": ["op"],
+    "rename": ["update", "copyname"], "toSS": ["ss", "tf2ss", "named", "class", "kwsame"],
+    "toTF": ["tf", "ss2tf", "named", "class", "kwsame"],
+    "toFRD": ["frd", "freqresp", "class", "classpos", "kwsame"], "toNL": ["nlsys", "named", "kwsame"], "sim": ["op"],
     "reach": ["form", "canon"], "obs": ["form", "canon"], "modred": ["truncate", "matchdc"],
     "minreal": ["method", "func"], "lin": ["func", "method", "named"], "sample": ["method", "c2d", "tustin", "prewarp"],
 }
 # classes on which an operation is offered at all (anything else is only spot-checked as "raises")
 UN_CLASSES = {
     "neg": CLASSES, "pow": ("ss", "tf", "frd"), "getitem": ("ss", "tf", "frd"), "copy": CLASSES,
-    "rename": CLASSES, "toSS": ("ss", "tf"), "toTF": ("ss", "tf"), "toFRD": ("ss", "tf"),
+    "rename": CLASSES, "toSS": ("ss", "tf"), "toTF": ("ss", "tf"), "toFRD": ("ss", "tf", "frd"),
     "toNL": ("ss",), "sim": ("ss",), "reach": ("ss",), "obs": ("ss",), "modred": ("ss",),
     "minreal": ("tf",), "lin": ("ss", "nl", "ic"), "sample": ("ss", "tf"),
 }
@@ -289,6 +369,12 @@ def via_ok(op, via, cls, static, dtv):
         return False
     if op == "toTF" and via == "ss2tf" and cls != "ss":
         return False
+    if op == "toSS" and via == "class" and cls != "ss":
+        return False          # StateSpace(sys) / TransferFunction(sys): copy constructors of the own class
+    if op == "toTF" and via == "class" and cls != "tf":
+        return False
+    if op == "toFRD" and cls == "frd" and via in ("freqresp", "classpos"):
+        return False          # an FRD has no frequency_response(omega); FRD(F, omega, dt) reads F as data
     if op == "modred" and via == "matchdc" and dtv in ("T",) + tuple(t for t in EXPL_TOK if t[0] == "Q" and t != "Q0"):
         return False          # 'matchdc' is not implemented for discrete-time systems
     if op == "minreal" and via == "func" and cls != "tf":
@@ -362,7 +448,15 @@ class C05(Family):
             "C05Expr.eval): every ordered triple of the five timebases for series / parallel / append / "
             "interconnect / combine_tf over several class patterns (+ constants, dt= keyword, summing "
             "junctions), random trees over all node kinds (powers incl. 0 and negative, unary operations, "
-            "sample(Ts), n-ary functions), and the np.isclose tolerance-edge trees.  A cell is non-trivial when at "
+            "sample(Ts), n-ary functions), and the np.isclose tolerance-edge trees.  Routes by which a timebase "
+            "reaches a constructor: keyword, last positional argument (factory functions and class "
+            "constructors, SISO and 2x2, valid and invalid values), both at once, copy constructors "
+            "(StateSpace(sys), TransferFunction(sys), frd(F) / FrequencyResponseData(F)), conversions with the "
+            "operand's own timebase given explicitly (dt=sys.dt, FRD(sys, omega, sys.dt)); indexing with every "
+            "form of two-index key (F[i, j], F[i, :], reversed / full slices, index lists, signal names, "
+            "negative indices) of SISO and 2x2 ss / tf / frd systems under every default_dt; and "
+            "append(a, b)[0, 0] <op> c for every ordered triple of timebases (a block of a MIMO system "
+            "combined onward).  A cell is non-trivial when at "
             "least one operand has a specified timebase (not None)")
 
     # ---- generation -------------------------------------------------------
@@ -479,6 +573,28 @@ class C05(Family):
                             cells.append({"k": "un", "op": op, "arg": arg, "via": via, "cfg": cfg, "a": a})
         return cells
 
+    def getitem_cells(self, rng, frac=1.0):
+        """indexing with every form of two-index key (F[i, j], F[i, :], reversed slice, full slice, index
+        lists, signal names, negative indices) of SISO and 2x2 systems of the three indexable classes, for
+        every timebase incl. `dt` omitted / static, under every `default_dt` (the model's `getitem` does
+        not depend on key or shape; `__getitem__` hands the operand's timebase to the class constructor
+        -- FRD: positionally -- so `None` must survive a non-None `default_dt`)"""
+        cells = []
+        for cfg in CFGS:
+            for cls in ("ss", "tf", "frd"):
+                for a in self.operand_variants(cls):
+                    for mimo in (0, 1):
+                        for via in GETITEM_VIAS:
+                            if via == "op" and not mimo:
+                                continue                       # already in un_cells
+                            if frac < 1.0 and rng.random() > frac:
+                                continue
+                            c = {"k": "un", "op": "getitem", "arg": None, "via": via, "cfg": cfg, "a": a}
+                            if mimo:
+                                c["m2"] = 1
+                            cells.append(c)
+        return cells
+
     def rnd_opnd(self, rng, classes=CLASSES, consts=True):
         r = rng.random()
         if consts and r < 0.12:
@@ -574,7 +690,7 @@ class C05(Family):
             for cls in CLASSES:
                 for a in self.operand_variants(cls):
                     cells.append({"k": "mk", "cfg": cfg, "a": a})
-                    for via in ("positional", "class", "zpk", "rss"):
+                    for via in ("positional", "class", "zpk", "rss", "classpos", "poskw", "mimo", "mimopos"):
                         try:
                             build_via(a, via)
                         except KeyError:
@@ -584,6 +700,8 @@ class C05(Family):
                         cells.append({"k": "mk", "cfg": cfg, "a": a, "via": via})
                 for bad in ("Q-1", "Q-1/2", "O"):
                     cells.append({"k": "mk", "cfg": cfg, "a": "%s:0:%s" % (cls, bad)})
+                    if cls in ("ss", "tf", "frd"):       # invalid value through the positional route
+                        cells.append({"k": "mk", "cfg": cfg, "a": "%s:0:%s" % (cls, bad), "via": "classpos"})
         return cells
 
     def corpus(self):
@@ -603,6 +721,10 @@ class C05(Family):
             {"k": "bin", "op": "mul", "via": "func", "cfg": "Q0", "a": "ss:0:N", "b": "ss:0:" + t01},
             {"k": "bin", "op": "add", "via": "func", "cfg": "Q0", "a": "tf:0:T", "b": "ss:0:" + t01},
             {"k": "bin", "op": "div", "via": "func", "cfg": "Q0", "a": "ss:0:Q0", "b": "ss:0:T"},
+            # positional `dt=None` must mean "unspecified", not "use default_dt" (FRD.__getitem__ route)
+            {"k": "un", "op": "getitem", "arg": None, "via": "row", "cfg": "Q0", "a": "frd:0:N", "m2": 1},
+            {"k": "mk", "cfg": "T", "a": "frd:0:N", "via": "classpos"},
+            {"k": "un", "op": "toFRD", "arg": None, "via": "class", "cfg": "Q0", "a": "frd:0:N"},
         ] + c05_expr.corpus()
 
     def generate(self, rng, tier):
@@ -617,6 +739,7 @@ class C05(Family):
             cells += self.un_cells("Q0", rng)
             for cfg in CFGS[1:]:
                 cells += self.un_cells(cfg, rng)
+            cells += self.getitem_cells(rng)
             cells += self.mimo_cells(rng, 0.25)
             cells += self.lic_cells(rng, 0.5)
             cells += self.nary_cells(rng, 350)
@@ -627,6 +750,7 @@ class C05(Family):
                 cells += self.un_cells(cfg, rng)
             # a second set of timebases: integer sampling times (int and float forms)
             cells += self.bin_cells("Q0", True, rng, toks=[kwtok(v) for v in (None, 0, True, 1, 2.5)])
+            cells += self.getitem_cells(rng)
             cells += self.mimo_cells(rng, 1.0)
             cells += self.lic_cells(rng, 1.0)
             cells += self.nary_cells(rng, 3000)
@@ -685,6 +809,16 @@ class C05(Family):
 
     # ---- the implementation -------------------------------------------------
     def impl(self, c):
+        """never raises: an exception of the harness code itself (not of the operation under test, which
+        is caught and classified where it is run) becomes a reported disagreement of this one cell
+        instead of ending the run before the other cells are judged"""
+        try:
+            return self.impl_guarded(c)
+        except Exception as e:  # noqa
+            return {"err": "harness", "exc": "%s: %s" % (type(e).__name__, str(e)[:200]),
+                    "tb": traceback.format_exc()[-600:]}
+
+    def impl_guarded(self, c):
         from control import config
         k = c["k"]
         if k == "common":
@@ -721,6 +855,8 @@ class C05(Family):
                 ops = [build(c["a"], bool(c["mimo"][0])), build(c["b"], bool(c["mimo"][1]))]
             elif k == "bin" and "lic" in c:
                 ops = [build(c["a"], lic=bool(c["lic"][0])), build(c["b"], lic=bool(c["lic"][1]))]
+            elif k == "un" and c.get("m2"):
+                ops = [build(c["a"], mimo=True)]
             elif k in ("mk", "bin", "un"):
                 ops = [build(c[n]) for n in names]
             elif k == "nary":
@@ -797,6 +933,9 @@ class C05(Family):
 
     def compare(self, c, impl, model):
         k = c["k"]
+        if isinstance(impl, dict) and impl.get("err") == "harness":
+            return Verdict(DIFFERS, "the harness adapter failed on this cell: %s\n%s" % (impl["exc"], impl.get("tb", "")),
+                           self.feat(c, "harness-impl", exc=impl["exc"].split(":")[0]))
         if k == "mk":
             if "err" in model or "err" in impl:
                 if "err" in model and "err" in impl:
@@ -937,6 +1076,12 @@ class C05(Family):
         s = {"kind": c["k"], "cfg": c.get("cfg", "-")}
         if c["k"] in ("bin", "un"):
             s["op"] = c["op"]
+        if c["k"] == "un" and c["op"] == "getitem":
+            s["key"] = c["via"] + ("/2x2" if c.get("m2") else "/siso")
+        if c["k"] == "un" and c["op"] in ("toSS", "toTF", "toFRD", "toNL"):
+            s["route"] = "%s/%s" % (c["op"], c["via"])
+        if c["k"] == "mk":
+            s["via"] = c.get("via", "factory")
         if c["k"] == "nary":
             s["op"] = c["fn"]
         if "mimo" in c:
